@@ -36,13 +36,14 @@ def AgreesOne (cfg : Cfg) (i : Nat) (e g : Tn) : Prop :=
 def Agrees (cfg : Cfg) (es gs : List Tn) : Prop :=
   es.length = gs.length ∧ ∀ i (h₁ : i < es.length) (h₂ : i < gs.length), AgreesOne cfg i es[i] gs[i]
 
-/-- What the code compares — the complex repack as the code computes it (`re + 1j*im`), then
-    the cast of `got` to `expected`'s dtype — is, for every output, exactly what ORT produced:
-    no value is changed before the comparison. -/
+/-- The promotion `_comparison_operands` applies before comparing changes no value, for every
+    output, on either side.  Since fix 61b87cb this can only fail where numpy's own promotion is
+    lossy: a 64-bit integer brought to float64 (int64/uint64 → float64 is "safe" for numpy;
+    int64 with uint64, or with a float, promotes to float64) with a magnitude above 2⁵³. -/
 def NoLossyCast (cfg : Cfg) (es gs : List Tn) : Prop :=
   ∀ i (h₁ : i < es.length) (h₂ : i < gs.length),
-    castList (normModel cfg i es[i] gs[i]).kind es[i].kind (normModel cfg i es[i] gs[i]).vals
-      = some (normExact cfg i es[i] gs[i]).vals
+    operands es[i].kind es[i].vals (normExact cfg i es[i] gs[i]).kind (normExact cfg i es[i] gs[i]).vals
+      = some (es[i].vals, (normExact cfg i es[i] gs[i]).vals)
 
 /-! ### element level -/
 
@@ -138,8 +139,8 @@ theorem normModel_shape (cfg : Cfg) (i : Nat) (e g : Tn) :
 /-! ### one output -/
 
 theorem decideOne_sound (cfg : Cfg) (hr : 0 ≤ cfg.rtol) (ha : 0 ≤ cfg.atol) (i : Nat) (e g : Tn)
-    (hc : castList (normModel cfg i e g).kind e.kind (normModel cfg i e g).vals
-      = some (normExact cfg i e g).vals)
+    (hc : operands e.kind e.vals (normExact cfg i e g).kind (normExact cfg i e g).vals
+      = some (e.vals, (normExact cfg i e g).vals))
     (h : decideOne cfg i e g = none) : AgreesOne cfg i e g := by
   unfold decideOne at h
   simp only at h
@@ -147,8 +148,7 @@ theorem decideOne_sound (cfg : Cfg) (hr : 0 ≤ cfg.rtol) (ha : 0 ≤ cfg.atol) 
   · exact absurd h (by simp)
   · rename_i hshape
     have hs : e.shape = (normExact cfg i e g).shape := by
-      rw [← normModel_shape]
-      by_cases hh : e.shape = (normModel cfg i e g).shape
+      by_cases hh : e.shape = (normExact cfg i e g).shape
       · exact hh
       · exact absurd hh hshape
     rw [hc] at h
@@ -168,8 +168,8 @@ theorem decideOne_sound (cfg : Cfg) (hr : 0 ≤ cfg.rtol) (ha : 0 ≤ cfg.atol) 
 theorem decideFrom_sound (cfg : Cfg) (hr : 0 ≤ cfg.rtol) (ha : 0 ≤ cfg.atol) :
     ∀ (es gs : List Tn) (k : Nat), es.length = gs.length →
       (∀ j (h₁ : j < es.length) (h₂ : j < gs.length),
-        castList (normModel cfg (k + j) es[j] gs[j]).kind es[j].kind
-          (normModel cfg (k + j) es[j] gs[j]).vals = some (normExact cfg (k + j) es[j] gs[j]).vals) →
+        operands es[j].kind es[j].vals (normExact cfg (k + j) es[j] gs[j]).kind (normExact cfg (k + j) es[j] gs[j]).vals
+      = some (es[j].vals, (normExact cfg (k + j) es[j] gs[j]).vals)) →
       decideFrom cfg k es gs = .isMatch →
       ∀ j (h₁ : j < es.length) (h₂ : j < gs.length), AgreesOne cfg (k + j) es[j] gs[j] := by
   intro es
@@ -203,9 +203,8 @@ theorem decideFrom_sound (cfg : Cfg) (hr : 0 ≤ cfg.rtol) (ha : 0 ≤ cfg.atol)
           simpa using this
         | succ j =>
           have hc' : ∀ j (h₁ : j < es.length) (h₂ : j < gs.length),
-              castList (normModel cfg (k + 1 + j) es[j] gs[j]).kind es[j].kind
-                (normModel cfg (k + 1 + j) es[j] gs[j]).vals
-                  = some (normExact cfg (k + 1 + j) es[j] gs[j]).vals := by
+              operands es[j].kind es[j].vals (normExact cfg (k + 1 + j) es[j] gs[j]).kind (normExact cfg (k + 1 + j) es[j] gs[j]).vals
+      = some (es[j].vals, (normExact cfg (k + 1 + j) es[j] gs[j]).vals) := by
             intro j h₁ h₂
             have := hc (j + 1) (by simp; omega) (by simp; omega)
             have e1 : k + (j + 1) = k + 1 + j := by omega
@@ -256,8 +255,8 @@ theorem agreesFrom_iff (cfg : Cfg) : ∀ (es gs : List Tn) (k : Nat),
 theorem noLossyFrom_iff (cfg : Cfg) : ∀ (es gs : List Tn) (k : Nat),
     noLossyFrom cfg k es gs = true ↔
       ∀ j (h₁ : j < es.length) (h₂ : j < gs.length),
-        castList (normModel cfg (k + j) es[j] gs[j]).kind es[j].kind
-          (normModel cfg (k + j) es[j] gs[j]).vals = some (normExact cfg (k + j) es[j] gs[j]).vals := by
+        operands es[j].kind es[j].vals (normExact cfg (k + j) es[j] gs[j]).kind (normExact cfg (k + j) es[j] gs[j]).vals
+      = some (es[j].vals, (normExact cfg (k + j) es[j] gs[j]).vals) := by
   intro es
   induction es with
   | nil => intro gs k; simp [noLossyFrom]
@@ -268,8 +267,8 @@ theorem noLossyFrom_iff (cfg : Cfg) : ∀ (es gs : List Tn) (k : Nat),
     | cons g gs =>
       simp only [noLossyFrom, Bool.and_eq_true, ih gs (k + 1), List.length_cons]
       have hone : noLossyOne cfg k e g = true ↔
-          castList (normModel cfg k e g).kind e.kind (normModel cfg k e g).vals
-            = some (normExact cfg k e g).vals := by
+          operands e.kind e.vals (normExact cfg k e g).kind (normExact cfg k e g).vals
+      = some (e.vals, (normExact cfg k e g).vals) := by
         unfold noLossyOne
         simp
       rw [hone]
